@@ -256,6 +256,7 @@ def _is_nested(decls, dec):
 # ---------------------------------------------------------------------------------------------
 
 T1, T2, T3 = 'verif::T1', 'verif::T2', 'verif::T3'
+T4 = 'const verif::T4&'      # an extern whose C++ type is spelled as a const reference
 
 BASE_POINT = {
     'ns': 'N',            # D1: '' | 'N' | 'N.M'
@@ -279,7 +280,7 @@ BASE_POINT = {
 }
 
 DIMS = {
-    'ns': ['', 'N', 'N.M'],
+    'ns': ['', 'N', 'N.M', 'N.N'],     # 'N.N': a namespace nested in a namespace of the same name
     'place': ['same', 'parent', 'global', 'sibling', 'shadow'],
     'extscope': ['global', 'split'],
     'spell': ['simple', 'partial', 'full'],
@@ -314,6 +315,8 @@ def full_menu():
             ['IntRet', 'in', ['Cnt'], []],
             ['InOut', 'in', ['void'], [['x', ['T2'], 'inout']]],
             ['Same', 'in', ['void'], [['a', ['T1'], 'in'], ['b', ['T1'], 'in'], ['c', ['T1'], 'inout']]],
+            ['IRef', 'in', ['bool'], [['a', ['T4'], 'in'], ['b', ['T2'], 'out']]],
+            ['ORef', 'out', ['void'], [['a', ['T4'], 'in'], ['b', ['T1'], 'in']]],
             ['O0', 'out', ['void'], []],
             ['O2', 'out', ['void'], [['a', ['T1'], 'in'], ['b', ['T3'], 'in']]],
             ['OSame', 'out', ['void'], [['a', ['T3'], 'in'], ['b', ['T3'], 'in']]]]
@@ -440,7 +443,8 @@ def build_model(pt):
         if split:
             sub = f'S{len(sub_of)}'
             sub_of[name] = sub
-            own = [['extern', t, f'verif::{t}_{sub}'] for t in ('T1', 'T2', 'T3')]
+            own = [['extern', t, f'verif::{t}_{sub}'] for t in ('T1', 'T2', 'T3')] + \
+                  [['extern', 'T4', f'const verif::T4_{sub}&']]
             interfaces.append(['ns', [sub], own + [node]])
         else:
             interfaces.append(node)
@@ -487,7 +491,7 @@ def build_model(pt):
         comp = ['system', 'Comp', ports, [], []]
     else:
         comp = ['component', 'Comp', ports]
-    externs = [] if split else [['extern', 'T1', T1], ['extern', 'T2', T2], ['extern', 'T3', T3]]
+    externs = [] if split else [['extern', 'T1', T1], ['extern', 'T2', T2], ['extern', 'T3', T3], ['extern', 'T4', T4]]
 
     def nest(path, nodes):
         for ident in reversed(path):
